@@ -181,7 +181,7 @@ def one(case):
             "fdict": [[k, oidx(objs, v)] for k, v in func.__dict__.items()],
         },
         "has_dc": hasattr(func, "__defaults_count__"),
-        "view_f": view(inspect.signature(func), objs),
+        "view_f": view(inspect.signature(func, follow_wrapped=False), objs),
         "view_t": None,
     }
     if first_exc:
@@ -192,7 +192,7 @@ def one(case):
     try:
         m, target = describe(via, func, ns)
         try:
-            out["view_t"] = view(inspect.signature(target), objs)
+            out["view_t"] = view(inspect.signature(target, follow_wrapped=False), objs)
         except ValueError:       # e.g. a bound ``def f(): ...``: inspect has nothing to bind
             out["view_t"] = None
         assert isinstance(m, Method)
